@@ -1,8 +1,8 @@
 """C12 — a persisted model restores to an equivalent model (DESIGN.md §4 C12).
 
 Real side: generated models (all value types, formulas, ranges, defined names, several sheets) are
-persisted with `Model.persist_to_json_file` at four points of a build / compile / evaluate / overwrite
-history, under the extensions `.json`, `.gz`, `.GZ`, `.gzip`, restored with
+persisted with `Model.persist_to_json_file` at five points of a build / compile / evaluate / overwrite /
+re-evaluate history, under the extensions `.json`, `.gz`, `.GZ`, `.gzip`, restored with
 `Model().construct_from_json_file(..., build_code=True)`, compared deeply (cells: address, value,
 formula text; formulae; defined names: kind and target; ranges: address matrix), and every cell is then
 evaluated in the restored model and in the original.
@@ -35,7 +35,8 @@ LEVEL_TEXT = (
     'depth: finding D1201), the restored model shows the same cells / formulae / names / ranges, compiles to the '
     'compiled original and so evaluates identically; built, compiled, evaluated, overwritten and restored models '
     'are Persistable. jsonpickle itself is modelled, not verified: the strength of this check is the '
-    'differential run (generated models x 4 history points x 4 file extensions, deep comparison and '
+    'differential run (generated models x 5 history points x 4 file extensions, several constructions from one '
+    'file with the earlier restored model used in between, persisting over an existing path, deep comparison and '
     're-evaluation of every cell; the Lean model is also asked whether every real state is Persistable).')
 LEVEL_NOTE = (
     'Trusted: Lean kernel (axioms propext, Classical.choice, Quot.sound); jsonpickle, json, gzip and '
@@ -76,7 +77,9 @@ ASSUMPTIONS = [
 ]
 
 EXTS = ['.json', '.gz', '.GZ', '.gzip']
-POINTS = ['uncompiled', 'compiled', 'evaluated', 'overwritten']
+# 'overwritten': every cell evaluated, then inputs overwritten with set_cell_value, the dependents NOT evaluated
+# again (their stored values are outdated when the model is persisted); 'reevaluated': ... and evaluated again.
+POINTS = ['uncompiled', 'compiled', 'evaluated', 'overwritten', 'reevaluated']
 
 SHEETS = ['Sheet1', 'Data', 'My Sheet', 'Übersicht', 'S 2', "O'Neil"]
 TEXTS = ['abc', 'héllo wörld', '日本語テキスト', 'it\'s', 'a"b', ' lead', 'TRUE', '1e5', '12', 'x' * 300, 'a\tb',
@@ -277,6 +280,11 @@ def gen_spec(rng, idx, big=False):
              'bool': lambda: rng.choice([True, False]), 'date': lambda: rng.choice(DATES), 'empty': lambda: '',
              'none': lambda: None, 'new': lambda: rng.choice([5, 'new', 2.5])}[kind]()
         over.append((a, tag_value(v)))
+    # ... and one of a number some formula reads (so that stored results are outdated at 'overwritten')
+    read = [x for x in numeric if any(isinstance(cells[f], str) and cells[f].startswith('=')
+                                      and x.split('!')[1] in cells[f] for f in order)]
+    if read:
+        over.append((rng.choice(read), tag_value(rng.choice([5, 1000, -3, 0.25, 2 ** 40]))))
     if names and rng.random() < 0.3:
         cn = [n for n, v in names.items() if ':' not in v]
         if cn:
@@ -349,6 +357,7 @@ def build_state(spec, point):
                 ev.set_cell_value(m.cells[a], untag(v))     # the XLCell form of the address
             else:
                 ev.set_cell_value(a, untag(v))
+    if point >= 4:
         evaluate_all(m)
     return m
 
@@ -506,8 +515,11 @@ def big_model():
         import random as _r
         from xlcalculator import ModelCompiler
         rr = _r.Random(12)
-        d = {f'Big!A{i}': ''.join(chr(rr.randrange(33, 0x24f)) for _ in range(120)) for i in range(1, 160)}
-        d.update({f'Big!B{i}': f'=LEN(A{i})+SUM(A1:A{i})' for i in range(1, 160)})
+        # long random texts: a payload of > 1 MB (plain) / several 100 KB (gzip) that costs the encoder only a few
+        # hundred nodes — the object count, not the byte count, is what makes jsonpickle slow
+        # (ASCII: `\\uXXXX` escapes of non-ASCII text make gzip level 9 crawl)
+        d = {f'Big!A{i}': 'x' + ''.join(chr(rr.randrange(35, 127)) for _ in range(4000)) for i in range(1, 61)}
+        d.update({f'Big!B{i}': f'=LEN(A{i})+SUM(A1:A{i})' for i in range(1, 9)})
         _BIG.append(ModelCompiler().read_and_parse_dict(d))
     return _BIG[0]
 
@@ -860,8 +872,100 @@ class Strict:
         self.up.loadclass = self.orig
 
 
+def overwrite_numbers(m, k):
+    """set_cell_value(+1000) on the first `k` plain finite numbers of the model (no evaluation afterwards)."""
+    for a, c in list(m.cells.items()):
+        if k <= 0:
+            break
+        if getattr(c, 'formula', None) is None and type(c.value) in (int, float) and c.value == c.value \
+                and abs(c.value) < 1e300:
+            m.set_cell_value(a, c.value + 1000)
+            k -= 1
+
+
+def use_model(m, overwrites=()):
+    """Ordinary use of a (restored) model: evaluate every cell, overwrite inputs, evaluate again."""
+    from xlcalculator import Evaluator
+    evaluate_all(m)
+    ev = Evaluator(m)
+    done = 0
+    for a, v in overwrites:
+        if '!' not in a and a not in m.defined_names:
+            continue
+        ev.set_cell_value(a, untag(v))
+        done += 1
+    overwrite_numbers(m, 3 - done)
+    evaluate_all(m)
+
+
+def several_constructions(ctx, res, case, orig, wire0, ev_ref, ext, tmpdir, counter, pending, listed, overwrites):
+    """One file, several models (the file is what is restored, not what an earlier reader did with it):
+    persist; construct #1 and use it (evaluate, overwrite, evaluate); construct #2 and #3 from the same unchanged
+    file; then persist the used model #1 over the same path and construct #4."""
+    from xlcalculator import Model
+    counter[0] += 1
+    fname = os.path.join(tmpdir, f'several{counter[0]}{ext}')
+    orig.persist_to_json_file(fname)
+    first = Model()
+    first.construct_from_json_file(fname, build_code=True)
+    use_model(first, overwrites)
+    results = []
+    for label, bc in (('second construction from the unchanged file', True),
+                      ('third construction from the unchanged file (build_code by hand)', False)):
+        try:
+            mk = Model()
+            mk.construct_from_json_file(fname, build_code=bc)
+            if not bc:
+                mk.build_code()
+            wk = obs_wire(mk)
+            evk = evaluate_all(mk)
+        except Exception as exc:  # noqa: BLE001
+            wk, evk = 'X:' + type(exc).__name__, None
+        res.evaluations += 1
+        res.count('construct-again')
+        c2 = dict(case, then=label + ', after the first restored model was evaluated and overwritten')
+        if unordered(wk) != unordered(wire0):
+            res.violations.append({'what': 'a ' + label + ' differs from the persisted model', 'input': c2,
+                                   'expected': short(wire0, 300), 'got': short(wk, 300),
+                                   'diff': diff_obs(unordered(wire0), unordered(wk)) if not wk.startswith('X:') else wk})
+        elif evk is not None and first_diff(ev_ref, evk):
+            dev = first_diff(ev_ref, evk)
+            res.violations.append({'what': 'a cell of the model from a ' + label + ' evaluates differently',
+                                   'input': c2, 'expected': {dev[0]: dev[1]}, 'got': {dev[0]: dev[2]}})
+        results.append(wk)
+    # the used model #1 is itself a model with a history: persist it over the same path, construct #4
+    wire1 = obs_wire(first)
+    graph1 = graph_wire(first)
+    try:
+        first.persist_to_json_file(fname)
+        fourth = Model()
+        fourth.construct_from_json_file(fname, build_code=True)
+        w4 = obs_wire(fourth)
+        ev4 = evaluate_all(fourth)
+        ev1 = evaluate_all(first)
+    except RecursionError:
+        w4, ev4, ev1 = 'X:RecursionError', None, None
+    except Exception as exc:  # noqa: BLE001
+        w4, ev4, ev1 = 'X:' + type(exc).__name__, None, None
+    finally:
+        if os.path.exists(fname):
+            os.unlink(fname)
+    res.count('persist-over-same-path')
+    c4 = dict(case, then='the first restored model, evaluated and overwritten, is persisted over the same path '
+                         'and restored')
+    if ev4 is not None and unordered(w4) == unordered(wire1) and first_diff(ev1, ev4):
+        dev = first_diff(ev1, ev4)
+        res.violations.append({'what': 'a cell of the model restored from the rewritten file evaluates differently',
+                               'input': c4, 'expected': {dev[0]: dev[1]}, 'got': {dev[0]: dev[2]}})
+    line = '\t'.join(['C12', 'RT', w_text('m.json'), '1', 'all', str(SAFE_DEPTH), graph1])
+
+    def done4(d, c4=c4, w4=w4, wire1=wire1):
+        classify_rt(res, ctx, c4, w4, dict(d, spec=wire1), listed)
+    pending.append((line, done4))
+
+
 def run_spec(ctx, res, spec, tmpdir, counter, exts_for_point, pending, listed):
-    """All four history points of one generated model.  Driver requests are queued in `pending` together
+    """All five history points of one generated model.  Driver requests are queued in `pending` together
     with the closure that classifies the answer."""
     for p, pname in enumerate(POINTS):
         orig = build_state(spec, p)
@@ -938,9 +1042,17 @@ def run_spec(ctx, res, spec, tmpdir, counter, exts_for_point, pending, listed):
                     by_hand, ev4 = 'X:' + type(exc).__name__, None
                 res.evaluations += 1
                 res.count('build_code-by-hand')
-                if unordered(by_hand) != unordered(wire0) or (ev4 is not None and first_diff(ev_ref, ev4)):
+                if unordered(by_hand) != unordered(wire0):
                     res.violations.append({'what': 'construct_from_json_file(build_code=False) + build_code() differs',
                                            'input': case, 'expected': short(wire0, 300), 'got': short(by_hand, 300)})
+                elif ev4 is not None and first_diff(ev_ref, ev4):
+                    dev = first_diff(ev_ref, ev4)
+                    res.violations.append({'what': 'a cell of the restored model (build_code=False, then build_code()) '
+                                                   'evaluates differently from the original',
+                                           'input': case, 'expected': {dev[0]: dev[1]}, 'got': {dev[0]: dev[2]}})
+                # (c) several constructions from one file, the earlier restored model being used in between
+                several_constructions(ctx, res, case, orig, wire0, ev_ref, ext, tmpdir, counter, pending, listed,
+                                      spec['overwrites'])
             # evaluate every cell of the restored model
             ev2 = evaluate_all(m2)
             dev = first_diff(ev_ref, ev2)
@@ -1021,7 +1133,7 @@ def run_codec(ctx, res, tmpdir, pending, only=None):
 def run_strict(ctx, res, specs, tmpdir, counter, pending, listed):
     """The allow-list alone must rebuild the dataclasses (no import fallback for their modules)."""
     for spec in specs:
-        for p in (0, 2):
+        for p in (0, 3):
             orig = build_state(spec, p)
             wire0 = obs_wire(orig)
             graph = graph_wire(orig)
@@ -1058,11 +1170,13 @@ def run_workbooks(ctx, res, tmpdir, counter, pending, listed, only=None):
         path = common.REPO / 'tests' / 'resources' / b
         if not path.exists():
             continue
-        for p in (1, 2):
+        for p in (1, 2, 3):
             def build():
                 mm = ModelCompiler().read_and_parse_archive(str(path), build_code=True)
-                if p == 2:
+                if p >= 2:
                     evaluate_all(mm)
+                if p == 3:
+                    overwrite_numbers(mm, 3)     # the stored results of the dependents are now outdated
                 return mm
             try:
                 orig = build()
@@ -1091,6 +1205,8 @@ def run_workbooks(ctx, res, tmpdir, counter, pending, listed, only=None):
                 except Exception as exc:  # noqa: BLE001
                     real = 'X:' + type(exc).__name__
                 reals.append((case, real))
+                if ext == '.json' and unordered(real) == unordered(wire0):
+                    several_constructions(ctx, res, case, orig, wire0, ev_ref, ext, tmpdir, counter, pending, listed, ())
             line = '\t'.join(['C12', 'RT', w_text('m.json'), '1', 'all', str(SAFE_DEPTH), graph])
 
             def done(d, reals=reals, wire0=wire0, b=b):
@@ -1162,10 +1278,14 @@ def run(ctx):
         'generated acyclic models (1-3 sheets incl. names with blanks / non-ASCII; ints incl. > 2^64, floats incl. '
         'max, denormal, -0.0, inf, nan; booleans; texts incl. non-ASCII, quotes, empty; datetimes; None; formulas '
         'yielding numbers, texts, booleans, dates, blanks, arrays and the error values; literal and named ranges; '
-        'defined names for cells and ranges; long formulas), each persisted at four history points (uncompiled, '
-        'compiled, every cell evaluated, overwritten with set_cell_value and re-evaluated) under .json/.gz/.GZ/.gzip, '
-        'restored with build_code=True, compared deeply and re-evaluated cell by cell; plus tricky file names, '
-        'bundled workbooks, and restores with the import fallback blocked. Non-trivial = a (model, point, '
+        'defined names for cells and ranges; long formulas), each persisted at five history points (uncompiled, '
+        'compiled, every cell evaluated, inputs overwritten with set_cell_value while the dependents keep their '
+        'outdated results, evaluated again) under .json/.gz/.GZ/.gzip, restored with build_code=True, compared '
+        'deeply and evaluated cell by cell against the original; per point also: the restored model persisted '
+        'again, build_code by hand, and several constructions from one file (the first restored model evaluated '
+        'and overwritten before the second and third construction, then persisted over the same path and restored); '
+        'every other round trip writes over a longer existing file; plus tricky file names, bundled workbooks '
+        '(compiled, evaluated, overwritten), and restores with the import fallback blocked. Non-trivial = a (model, point, '
         'extension) round trip of a model with at least one formula and two kinds of evaluated values that came '
         'back equal, or a gzip-selecting file name')
     listed = {e['id'] for e in ctx.known if e.get('status') == 'known'}
